@@ -499,3 +499,152 @@ def embedded_leaf(tu):
                        "tree being stored" % (sorted(embed), sorted(mark),
                                               ",".join(missing)), path=[]))
     return findings, facts
+
+
+# ---------------------------------------------------------------------------
+# CONV-BEFORE-MUT / GROW-ROLLBACK (C09, C13, C14)
+
+CONV_MACROS = ("COPY_KEY_FROM_ARG", "COPY_VALUE_FROM_ARG")
+
+
+def status_vars(fn):
+    """Status variables of the conversion macros used in fn: int locals
+    initialised to 1 that a COPY_*_FROM_ARG expansion assigns."""
+    ones = set()
+    for n in fn.walk():
+        if n.k == "VarDecl" and (n.t or "").strip() == "int" and n.kids and \
+                const_int(n.kids[-1]) == 1:
+            ones.add(n.n)
+    out = set()
+    for n in fn.walk():
+        if n.k == "BinaryOperator" and n.v == "=" and n.mo in CONV_MACROS:
+            l0 = strip(n.kids[0])
+            if l0 is not None and l0.k == "DeclRefExpr" and l0.n in ones and \
+                    const_int(n.kids[1]) in (0, 1):
+                out.add(l0.n)
+    return out
+
+
+class ConvAnalysis(ChangeAnalysis):
+    """Adds: no mutation after a failed conversion, no conversion failure
+    after a mutation, rollback of a first leaf grown into an empty tree."""
+
+    def __init__(self, cfg, tu, ctx):
+        ChangeAnalysis.__init__(self, cfg, tu, ctx)
+        self.svars = status_vars(cfg.fn)
+        self.vreports = []
+        self._vseen = set()
+        self.conv_sites = sum(1 for n in cfg.fn.walk() if n.k == "BinaryOperator" and
+                              n.v == "=" and n.mo in CONV_MACROS and
+                              strip(n.kids[0]) is not None and strip(n.kids[0]).k == "DeclRefExpr"
+                              and strip(n.kids[0]).n in self.svars)
+        self.grow_sites = 0
+        self.live = self._flag_liveness()
+
+    def extra_uses(self, node):
+        out = set(ChangeAnalysis.extra_uses(self, node))
+        out |= getattr(self, "svars", set())
+        return out
+
+    def vreport(self, rule, node, st, what, detail):
+        if (rule, node.id, what) not in self._vseen:
+            self._vseen.add((rule, node.id, what))
+            self.vreports.append((rule, node, st, what, detail))
+
+    def _failed(self, st):
+        return [v for v in self.svars if sget(st, "f:" + v) == 0]
+
+    def _assign(self, node, st, lhs, rhs):
+        # the conversion macro zeroes its own TARGET on failure: not a
+        # container mutation in the sense of this rule
+        self._in_macro = getattr(lhs, "mo", None) in CONV_MACROS and \
+            const_int(rhs) == 0 if rhs is not None else False
+        try:
+            return ChangeAnalysis._assign(self, node, st, lhs, rhs)
+        finally:
+            self._in_macro = False
+
+    def _mark(self, node, st, oid, what):
+        if oid is not None and not getattr(self, "_in_macro", False):
+            held, s = self.ostate(st, oid)
+            bad = self._failed(st)
+            if bad and s != "F":
+                self.vreport("CONV-BEFORE-MUT", node, st,
+                             "%s modified although conversion failed (%s == 0)" % (what, bad[0]),
+                             "the container is modified on a path where the "
+                             "key/value conversion has failed and not been "
+                             "checked: an unrepresentable argument is stored "
+                             "(truncated / zeroed) instead of being rejected")
+        return ChangeAnalysis._mark(self, node, st, oid, what)
+
+    def _call(self, node, st, call):
+        c = callee(call)
+        if c == ("fn", "BTree_grow") and len(call.kids) > 2 and const_int(call.kids[2]) == 0:
+            self.grow_sites += 1
+            st = sset(st, "g:1", node.where)
+        elif c == ("fn", "_BTree_clear"):
+            st = sdel(st, "g:1")
+        return ChangeAnalysis._call(self, node, st, call)
+
+    def check_exits(self):
+        ChangeAnalysis.check_exits(self)
+        for n in self.cfg.returns():
+            for st in self.IN.get(n.id, ()):
+                st2 = self.on_node(n, st)[0]
+                err = self._is_error_return(n, st2)
+                bad = self._failed(st2)
+                if bad:
+                    dirty = [(k[2:], v) for k, v in st2 if k.startswith("d:")]
+                    for oid, origin in dirty:
+                        held, s = self.ostate(st2, oid)
+                        if s == "F":
+                            continue
+                        nm = oid[2:].split("@")[0] if oid[1:2] == ":" else oid
+                        self.vreport("CONV-BEFORE-MUT", n, st,
+                                     "%s already modified [%s] when conversion fails" % (
+                                         nm, origin.split(" ", 1)[-1]),
+                                     "a key/value conversion fails after %s has "
+                                     "been modified (at %s): the TypeError "
+                                     "leaves a partial change behind" % (nm, origin.split(" ")[0]))
+                if err and sget(st2, "g:1") is not None:
+                    self.vreport("GROW-ROLLBACK", n, st,
+                                 "first leaf grown at %s not rolled back at return %s" % (
+                                     "BTree_grow(self, 0, ...)", text(n.e)[:20] if n.e is not None else ""),
+                                 "BTree_grow added an empty first bucket to an "
+                                 "empty tree and the operation fails later "
+                                 "without _BTree_clear: the tree keeps an empty "
+                                 "leaf (bool(t) is True, _check() fails)")
+
+
+def analyse_conv(tu):
+    ptypes = pins.persistent_types(tu)
+    ctx = {
+        "ptypes": ptypes, "entries": pins.entry_points(tu), "needs": {},
+        "params": {name: [k.n for k in fn.kids if k.k == "ParmVarDecl"]
+                   for name, fn in tu.funcs.items()},
+        "runs_py": pins.runs_python(tu), "const_ret": pins.const_returns(tu),
+        "dirties": {g: {"self"} if g not in ("bucket_split", "BTree_split") else {"next"}
+                    for g in CALLER_MARKS if g not in ("copyRemaining", "merge_output")},
+        "exempt": set(),
+    }
+    findings = []
+    conv_sites = grow_sites = funcs = 0
+    for name in tu.order:
+        fn = tu.funcs[name]
+        has_conv = any(n.mo in CONV_MACROS for n in fn.walk() if n.k == "BinaryOperator")
+        has_grow = any(n.k == "CallExpr" and callee(n) == ("fn", "BTree_grow") for n in fn.walk())
+        if not (has_conv or has_grow):
+            continue
+        an = ConvAnalysis(CFG(fn), tu, ctx)
+        an.solve()
+        an.check_exits()
+        funcs += 1
+        conv_sites += an.conv_sites
+        grow_sites += an.grow_sites
+        for rule, node, st, what, detail in an.vreports:
+            findings.append(dict(
+                rule=rule, function=name, file=node.where.split(":")[0], line=node.line,
+                construct=what, detail=detail, path=witness_lines(an.witness(node, st))))
+    return dict(findings=findings,
+                stats={"conv_functions": funcs, "conv_status_sites": conv_sites,
+                       "grow_first_leaf_sites": grow_sites})
